@@ -383,88 +383,6 @@ def parameter_restricted_stateless_and_rejection_keeps_value__reach(i0: int, i1:
 
 
 
-def choice_parameter_rejection_by_any_error_keeps_value(i0: int, i1: int, i2: int) -> bool:
-    """
-    pre: 0 <= i0 < 3 and 0 <= i1 < 7 and 0 <= i2 < 7
-    post: _
-    """
-    import uuid as _uuid
-    U1, U2 = _uuid.UUID(int=1), _uuid.UUID(int=2)
-    class T1:
-        @staticmethod
-        def default_type_uid():
-            return U1
-    class T2:
-        @staticmethod
-        def default_type_uid():
-            return U2
-    kind = 0
-    if kind == 0:
-        alpha = [None, "a", "b", 1, "q", {"a": 1}, ["a"]]
-        mk = lambda: ValueRestrictedParameter("v", ["a", "b", 1])
-    else:
-        alpha = [None, T1, T2, "a", 3, U1, ["a"]]
-        mk = lambda: TypeUIDRestrictedParameter("o", [str(U1)])     # mesh_type members of a ui.json are text
-    v0, v1, v2 = alpha[[0, 1, 6][i0]], alpha[i1], alpha[i2]
-    def assign(par, v):
-        try:
-            par.value = v
-            return True
-        except Exception:                 # a value refused with any error is a rejected value
-            return False
-    p = mk()
-    assign(p, v0)
-    before = p.value
-    ok1 = assign(p, v1)
-    if not ok1 and p.value is not before:
-        return False                      # a rejected assignment changed the stored value
-    if ok1 and p.value is not v1:
-        return False
-    fresh = mk()
-    return assign(p, v2) == assign(fresh, v2)
-
-def choice_parameter_rejection_by_any_error_keeps_value__reach(i0: int, i1: int, i2: int) -> bool:
-    """
-    pre: 0 <= i0 < 3 and 0 <= i1 < 7 and 0 <= i2 < 7
-    post: False
-    """
-    import uuid as _uuid
-    U1, U2 = _uuid.UUID(int=1), _uuid.UUID(int=2)
-    class T1:
-        @staticmethod
-        def default_type_uid():
-            return U1
-    class T2:
-        @staticmethod
-        def default_type_uid():
-            return U2
-    kind = 0
-    if kind == 0:
-        alpha = [None, "a", "b", 1, "q", {"a": 1}, ["a"]]
-        mk = lambda: ValueRestrictedParameter("v", ["a", "b", 1])
-    else:
-        alpha = [None, T1, T2, "a", 3, U1, ["a"]]
-        mk = lambda: TypeUIDRestrictedParameter("o", [str(U1)])     # mesh_type members of a ui.json are text
-    v0, v1, v2 = alpha[[0, 1, 6][i0]], alpha[i1], alpha[i2]
-    def assign(par, v):
-        try:
-            par.value = v
-            return True
-        except Exception:                 # a value refused with any error is a rejected value
-            return False
-    p = mk()
-    assign(p, v0)
-    before = p.value
-    ok1 = assign(p, v1)
-    if not ok1 and p.value is not before:
-        return False                      # a rejected assignment changed the stored value
-    if ok1 and p.value is not v1:
-        return False
-    fresh = mk()
-    return assign(p, v2) == assign(fresh, v2)
-
-
-
 def requires_value_blank_group_name(gsel: int, osel: int, gopt: bool, gen: bool, oopt: bool, oen: bool, has_opt: bool, en: bool) -> bool:
     """
     pre: 0 <= gsel < 4 and 0 <= osel < 3
